@@ -170,9 +170,6 @@ theorem flatten_drop_prefix : ∀ (bs : List Bytes) (j : Nat) (hj : j < bs.lengt
 theorem take_append_length' (a r : Bytes) : (a ++ r).take a.length = a := by simp
 theorem drop_append_length' (a r : Bytes) : (a ++ r).drop a.length = r := by simp
 
-/-- an attribute row as it lies in the `.dbf`: the deletion flag (a blank) and the cells -/
-def rowBytes (cells : List Bytes) : Bytes := 32 :: cells.flatten
-
 /-- every cell has its column's width -/
 def RowOK (fs : List Field) (cells : List Bytes) : Prop := cells.map List.length = fs.map (·.size)
 
@@ -327,9 +324,6 @@ theorem openDbf_header (num : Nat) (fs : List Field) (X : Bytes) (hv : ∀ f ∈
   rw [this, rdFields_descs _ fs hv]
 
 
-/-- the `.dbf` after `Close()`: header, then the rows -/
-def dbfOf (num : Nat) (fs : List Field) (rows : List (List Bytes)) : Bytes :=
-  dbfHeader num fs ++ (rows.map rowBytes).flatten
 /-- the `.shp` after `Close()`: header, then the records numbered from 1 -/
 def shpOf (t : Nat) (bbox : Box) (shapes : List BShape) : Bytes :=
   mainHeader (100 + (recsOf t 0 shapes).length) t bbox ++ recsOf t 0 shapes
@@ -410,5 +404,257 @@ example : ∃ (fs : List Field) (shapes : List BShape) (rows : List (List Bytes)
     · intro r hr
       simp only [List.mem_cons, List.mem_nil_iff, or_false] at hr
       rcases hr with rfl | rfl <;> rfl⟩
+
+
+/-! ## the writer's positioned writes -/
+
+theorem writeAt_cons_succ (x : UInt8) (d : Bytes) (k : Nat) (b : Bytes) : writeAt (x :: d) (k + 1) b = x :: writeAt d k b := by
+  simp only [writeAt, List.length_cons, Nat.add_sub_add_right, List.cons_append, List.take_succ_cons]
+  rw [show k + 1 + b.length = (k + b.length) + 1 by omega, List.drop_succ_cons]
+
+theorem writeAt_append_right : ∀ (P d : Bytes) (k : Nat) (b : Bytes), writeAt (P ++ d) (P.length + k) b = P ++ writeAt d k b
+  | [], d, k, b => by simp
+  | x :: P, d, k, b => by
+    rw [List.cons_append, List.length_cons, show P.length + 1 + k = (P.length + k) + 1 by omega, writeAt_cons_succ,
+      writeAt_append_right P d k b]; rfl
+
+theorem writeAt_zero (c R b : Bytes) (h : b.length ≤ c.length) : writeAt (c ++ R) 0 b = (b ++ c.drop b.length) ++ R := by
+  simp only [writeAt, Nat.zero_sub, zeros, List.replicate_zero, List.append_nil, List.take_zero, List.nil_append, Nat.zero_add]
+  rw [List.drop_append_of_le_length h, List.append_assoc]
+
+/-- a positioned write of at most a block's length at the start of block `j` of a sequence of blocks replaces
+the beginning of that block and nothing else -/
+theorem writeAt_blocks : ∀ (cs : List Bytes) (j : Nat) (hj : j < cs.length) (b : Bytes), b.length ≤ cs[j].length →
+    writeAt cs.flatten ((cs.take j).map List.length).sum b = (cs.set j (b ++ cs[j].drop b.length)).flatten
+  | c :: cs, 0, _, b, hb => by
+    simp only [List.take_zero, List.map_nil, List.sum_nil, List.flatten_cons, List.set_cons_zero, List.getElem_cons_zero] at hb ⊢
+    exact writeAt_zero c cs.flatten b hb
+  | c :: cs, j + 1, hj, b, hb => by
+    simp only [List.take_succ_cons, List.map_cons, List.sum_cons, List.flatten_cons, List.set_cons_succ, List.getElem_cons_succ] at hb ⊢
+    rw [writeAt_append_right, writeAt_blocks cs j (by simpa using hj) b hb]
+
+/-- **WriteAttribute addresses one cell**: in a `.dbf` consisting of a part `P` (header and earlier rows) followed by
+a well-formed row, the write at `P.length + 1 + Σ_{n<j} size_n` of at most `size_j` bytes replaces the beginning of
+cell `j` of that row and changes nothing else -/
+theorem writeAt_cell (fs : List Field) (P : Bytes) (cur : List Bytes) (hok : RowOK fs cur) (j : Nat) (hj : j < cur.length)
+    (b : Bytes) (hb : b.length ≤ cur[j].length) :
+    writeAt (P ++ rowBytes cur) (P.length + (1 + sizeSum (fs.take j))) b = P ++ rowBytes (cur.set j (b ++ cur[j].drop b.length)) := by
+  rw [writeAt_append_right, rowBytes, show 1 + sizeSum (fs.take j) = sizeSum (fs.take j) + 1 by omega, writeAt_cons_succ,
+    ← take_sizes fs cur hok j, writeAt_blocks cur j hj b hb]
+  rfl
+
+/-- `Close()`: the header written at offset 0 replaces exactly the zero bytes `SetFields` reserved -/
+theorem close_dbf (num : Nat) (fs : List Field) (hv : ∀ f ∈ fs, FieldValid f) (X : Bytes) :
+    writeAt (zeros (hdrLen fs) ++ X) 0 (dbfHeader num fs) = dbfHeader num fs ++ X := by
+  rw [writeAt_zero _ _ _ (by simp [zeros, dbfHeader_length num fs hv])]
+  simp [zeros, dbfHeader_length num fs hv]
+
+/-- `Writer.Write` appends the blank row of the abstract model -/
+theorem emptyRecord_eq (fs : List Field) : emptyRecord fs = rowBytes (blankRow fs) := by
+  simp only [emptyRecord, rowBytes, blankRow, blankCell, zeros, sizeSum]
+  congr 1
+  induction fs with
+  | nil => rfl
+  | cons f fs ih => simp only [List.map_cons, List.sum_cons, List.flatten_cons, ← ih, List.replicate_append_replicate]
+
+theorem blankRow_ok (fs : List Field) : RowOK fs (blankRow fs) := by
+  simp [RowOK, blankRow, blankCell]
+
+/-- writing `buf` into a blank cell gives the abstract model's `cellOf` -/
+theorem cellOf_eq (size : Nat) (buf : Bytes) : buf ++ (blankCell size).drop buf.length = cellOf size buf := by
+  simp [cellOf, blankCell, List.drop_replicate]
+
+/-- `geom2Shp` of the layout model is `geom2Shp` of the abstract model once the stored box is dropped -/
+theorem toShape_geom2ShpB (g : Geom UInt64) : (geom2ShpB g).map BShape.toShape = geom2Shp ptEqBits g := by
+  cases g <;> rfl
+
+
+theorem writeAttr_len (f : Field) (v : Val) (b : Bytes) (h : writeAttr f v = some b) : b.length ≤ f.size := by
+  unfold writeAttr at h
+  by_cases hc : (render f v).length > f.size
+  · simp [hc] at h
+  · simp [hc] at h; subst h; omega
+
+theorem cellOf_length (size : Nat) (b : Bytes) (h : b.length ≤ size) : (cellOf size b).length = size := by
+  simp [cellOf]; omega
+
+theorem rowOK_mid (fs : List Field) (i : Nat) (done : List Bytes) (hd : done.map List.length = (fs.take i).map (·.size)) :
+    RowOK fs (done ++ blankRow (fs.drop i)) := by
+  have := blankRow_ok (fs.drop i)
+  unfold RowOK at this ⊢
+  rw [List.map_append, hd, this, ← List.map_append, List.take_append_drop]
+
+/-- **the attribute loop of `Encode` on the bytes is `writeStrict` on the cells**: started at column `i` on a `.dbf`
+whose last row (at the encoder's cursor `row`, after `P`) has its first `i` cells written and the rest blank, the
+loop of `WriteAttribute` calls leaves exactly the cells the abstract model computes, and reports the same result -/
+theorem attrsStrict_spec (fs : List Field) (row : Nat) (P : Bytes) (hP : P.length = hdrLen fs + row * recLen fs) :
+    ∀ (vals : List Val) (i : Nat) (done : List Bytes), done.map List.length = (fs.take i).map (·.size) →
+    attrsStrict fs row i vals (P ++ rowBytes (done ++ blankRow (fs.drop i)))
+      = (P ++ rowBytes (done ++ (writeStrict (fs.drop i) vals).1), (writeStrict (fs.drop i) vals).2)
+  | [], i, done, _ => by
+    cases h : fs.drop i <;> simp [attrsStrict, writeStrict]
+  | v :: vs, i, done, hd => by
+    have hdl : done.length = min i fs.length := by
+      have := congrArg List.length hd; simpa using this
+    by_cases hi : i < fs.length
+    · have hdrop : fs.drop i = fs[i] :: fs.drop (i + 1) := List.drop_eq_getElem_cons hi
+      have hdl' : done.length = i := by omega
+      rw [attrsStrict, if_pos hi]
+      simp only [writeAttribute, List.getElem?_eq_getElem hi]
+      rw [hdrop]
+      cases hw : writeAttr fs[i] v with
+      | none => simp [writeStrict, hw]
+      | some buf =>
+        have hb := writeAttr_len _ _ _ hw
+        simp only [writeStrict, hw]
+        have hoff : cellOff fs row i = P.length + (1 + sizeSum (fs.take i)) := by simp only [cellOff, hP]; omega
+        have hok := rowOK_mid fs i done hd
+        rw [hdrop] at hok
+        have hj : i < (done ++ blankRow (fs[i] :: fs.drop (i + 1))).length := by simp [blankRow]; omega
+        have hcell : (done ++ blankRow (fs[i] :: fs.drop (i + 1)))[i] = blankCell fs[i].size := by
+          rw [List.getElem_append_right (by omega)]; simp [blankRow, hdl']
+        rw [hoff, writeAt_cell fs P _ hok i hj buf (by rw [hcell]; simp [blankCell]; exact hb), hcell, cellOf_eq]
+        have hset : (done ++ blankRow (fs[i] :: fs.drop (i + 1))).set i (cellOf fs[i].size buf)
+            = (done ++ [cellOf fs[i].size buf]) ++ blankRow (fs.drop (i + 1)) := by
+          rw [List.set_append_right _ _ (by omega), hdl', Nat.sub_self]
+          simp only [blankRow, List.map_cons, List.set_cons_zero, List.append_assoc, List.singleton_append]
+        have htk : (fs.take (i + 1)).map (·.size) = (fs.take i).map (·.size) ++ [fs[i].size] := by
+          rw [List.take_succ_eq_append_getElem hi, List.map_append]; rfl
+        rw [hset, attrsStrict_spec fs row P hP vs (i + 1) (done ++ [cellOf fs[i].size buf])
+          (by rw [List.map_append, hd, htk]; simp only [List.map_cons, List.map_nil, cellOf_length _ _ hb])]
+        simp [List.append_assoc]
+    · have hdrop : fs.drop i = [] := List.drop_eq_nil_of_le (by omega)
+      rw [attrsStrict, if_neg hi, hdrop]
+      simp [writeStrict]
+
+
+/-- **the attribute loop of `EncodeFields` on the bytes is `writeLenient` on the cells** (no more values than
+columns, so no index panic): refused values leave their cell blank, the loop goes on -/
+theorem attrsLenient_spec (fs : List Field) (row : Nat) (P : Bytes) (hP : P.length = hdrLen fs + row * recLen fs) :
+    ∀ (vals : List Val) (i : Nat) (done : List Bytes), done.map List.length = (fs.take i).map (·.size) →
+    i + vals.length ≤ fs.length →
+    attrsLenient fs row i vals (P ++ rowBytes (done ++ blankRow (fs.drop i)))
+      = (P ++ rowBytes (done ++ writeLenient (fs.drop i) vals), true)
+  | [], i, done, _, _ => by
+    cases h : fs.drop i <;> simp [attrsLenient, writeLenient]
+  | v :: vs, i, done, hd, hn => by
+    have hi : i < fs.length := by simp at hn; omega
+    have hdl : done.length = min i fs.length := by
+      have := congrArg List.length hd; simpa using this
+    have hdrop : fs.drop i = fs[i] :: fs.drop (i + 1) := List.drop_eq_getElem_cons hi
+    have hdl' : done.length = i := by omega
+    have htk : (fs.take (i + 1)).map (·.size) = (fs.take i).map (·.size) ++ [fs[i].size] := by
+      rw [List.take_succ_eq_append_getElem hi, List.map_append]; rfl
+    rw [attrsLenient]
+    simp only [writeAttribute, List.getElem?_eq_getElem hi]
+    rw [hdrop]
+    cases hw : writeAttr fs[i] v with
+    | none =>
+      simp only [writeLenient, hw]
+      have hsplit : done ++ blankRow (fs[i] :: fs.drop (i + 1)) = (done ++ [blankCell fs[i].size]) ++ blankRow (fs.drop (i + 1)) := by
+        simp only [blankRow, List.map_cons, List.append_assoc, List.singleton_append]
+      rw [hsplit, attrsLenient_spec fs row P hP vs (i + 1) (done ++ [blankCell fs[i].size])
+        (by rw [List.map_append, hd, htk]; simp [blankCell]) (by simp at hn ⊢; omega)]
+      simp [List.append_assoc]
+    | some buf =>
+      have hb := writeAttr_len _ _ _ hw
+      simp only [writeLenient, hw]
+      have hoff : cellOff fs row i = P.length + (1 + sizeSum (fs.take i)) := by simp only [cellOff, hP]; omega
+      have hok := rowOK_mid fs i done hd
+      rw [hdrop] at hok
+      have hj : i < (done ++ blankRow (fs[i] :: fs.drop (i + 1))).length := by simp [blankRow]; omega
+      have hcell : (done ++ blankRow (fs[i] :: fs.drop (i + 1)))[i] = blankCell fs[i].size := by
+        rw [List.getElem_append_right (by omega)]; simp [blankRow, hdl']
+      rw [hoff, writeAt_cell fs P _ hok i hj buf (by rw [hcell]; simp [blankCell]; exact hb), hcell, cellOf_eq]
+      have hset : (done ++ blankRow (fs[i] :: fs.drop (i + 1))).set i (cellOf fs[i].size buf)
+          = (done ++ [cellOf fs[i].size buf]) ++ blankRow (fs.drop (i + 1)) := by
+        rw [List.set_append_right _ _ (by omega), hdl', Nat.sub_self]
+        simp only [blankRow, List.map_cons, List.set_cons_zero, List.append_assoc, List.singleton_append]
+      rw [hset, attrsLenient_spec fs row P hP vs (i + 1) (done ++ [cellOf fs[i].size buf])
+        (by rw [List.map_append, hd, htk]; simp only [List.map_cons, List.map_nil, cellOf_length _ _ hb]) (by simp at hn ⊢; omega)]
+      simp [List.append_assoc]
+
+
+/-! ## one record on the bytes = one row of the abstract model -/
+
+theorem writeStrict_ok : ∀ (fs : List Field) (vals : List Val), RowOK fs (writeStrict fs vals).1
+  | [], vals => by cases vals <;> simp [writeStrict, RowOK, blankRow]
+  | f :: fs, [] => by simpa [writeStrict] using blankRow_ok (f :: fs)
+  | f :: fs, v :: vs => by
+    cases hw : writeAttr f v with
+    | none => simpa [writeStrict, hw] using blankRow_ok (f :: fs)
+    | some b =>
+      have ih := writeStrict_ok fs vs
+      unfold RowOK at ih ⊢
+      simp only [writeStrict, hw, List.map_cons, ih, cellOf_length _ _ (writeAttr_len _ _ _ hw)]
+
+theorem flatten_rows_length (fs : List Field) (rows : List (List Bytes)) (h : ∀ r ∈ rows, RowOK fs r) :
+    ((rows.map rowBytes).flatten).length = rows.length * recLen fs := by
+  have := rows_prefix fs rows rows.length h
+  rw [Nat.min_self, List.take_of_length_le (by simp)] at this
+  rw [List.length_flatten]; exact this
+
+/-- the `.dbf` of a writer whose attribute cursor is synchronised with the rows written so far -/
+def DbfInv (fs : List Field) (w : BW) (rows : List (List Bytes)) : Prop :=
+  w.dbf = zeros (hdrLen fs) ++ (rows.map rowBytes).flatten ∧ w.row = rows.length ∧ ∀ r ∈ rows, RowOK fs r
+
+/-- **one `Encode` call on the bytes**: the shape's record is appended to the `.shp`, and the `.dbf` gains exactly
+the row `writeStrict` computes (also when an attribute is refused), with the same result; the cursor stays synchronised -/
+theorem encode_strict_step (t : Nat) (fs : List Field) (w : BW) (rows : List (List Bytes)) (sh : BShape) (vals : List Val)
+    (hinv : DbfInv fs w rows) :
+    DbfInv fs (encode t fs w true (.ok sh) vals).1 (rows ++ [(writeStrict fs vals).1]) ∧
+    (encode t fs w true (.ok sh) vals).2 = (if (writeStrict fs vals).2 then .ok else .err) ∧
+    (encode t fs w true (.ok sh) vals).1.recs = w.recs ++ recordBytes t (w.num + 1) sh ∧
+    (encode t fs w true (.ok sh) vals).1.num = w.num + 1 := by
+  obtain ⟨hd, hrow, hok⟩ := hinv
+  have hP : (zeros (hdrLen fs) ++ (rows.map rowBytes).flatten).length = hdrLen fs + rows.length * recLen fs := by
+    rw [List.length_append, flatten_rows_length fs rows hok]; simp [zeros]
+  have hspec := attrsStrict_spec fs rows.length _ hP vals 0 [] (by simp)
+  simp only [List.drop_zero, List.nil_append] at hspec
+  simp only [encode, write, hd, hrow, emptyRecord_eq, if_true]
+  rw [hspec]
+  refine ⟨⟨?_, by simp, ?_⟩, by simp⟩
+  · simp [List.append_assoc]
+  · intro r hr
+    rcases List.mem_append.mp hr with h | h
+    · exact hok r h
+    · simp at h; subst h; exact writeStrict_ok fs vals
+
+
+theorem writeLenient_ok : ∀ (fs : List Field) (vals : List Val), RowOK fs (writeLenient fs vals)
+  | [], vals => by cases vals <;> simp [writeLenient, RowOK, blankRow]
+  | f :: fs, [] => by simpa [writeLenient] using blankRow_ok (f :: fs)
+  | f :: fs, v :: vs => by
+    have ih := writeLenient_ok fs vs
+    unfold RowOK at ih ⊢
+    cases hw : writeAttr f v with
+    | none => simp only [writeLenient, hw, List.map_cons, ih]; simp [blankCell]
+    | some b => simp only [writeLenient, hw, List.map_cons, ih, cellOf_length _ _ (writeAttr_len _ _ _ hw)]
+
+/-- **one `EncodeFields` call on the bytes** (no more values than columns): record appended, the `.dbf` gains exactly
+the row `writeLenient` computes, result `ok`, cursor synchronised -/
+theorem encode_lenient_step (t : Nat) (fs : List Field) (w : BW) (rows : List (List Bytes)) (sh : BShape) (vals : List Val)
+    (hinv : DbfInv fs w rows) (hn : vals.length ≤ fs.length) :
+    DbfInv fs (encode t fs w false (.ok sh) vals).1 (rows ++ [writeLenient fs vals]) ∧
+    (encode t fs w false (.ok sh) vals).2 = .ok ∧
+    (encode t fs w false (.ok sh) vals).1.recs = w.recs ++ recordBytes t (w.num + 1) sh ∧
+    (encode t fs w false (.ok sh) vals).1.num = w.num + 1 := by
+  obtain ⟨hd, hrow, hok⟩ := hinv
+  have hP : (zeros (hdrLen fs) ++ (rows.map rowBytes).flatten).length = hdrLen fs + rows.length * recLen fs := by
+    rw [List.length_append, flatten_rows_length fs rows hok]; simp [zeros]
+  have hspec := attrsLenient_spec fs rows.length _ hP vals 0 [] (by simp) (by omega)
+  simp only [List.drop_zero, List.nil_append] at hspec
+  simp only [encode, write, hd, hrow, emptyRecord_eq]
+  rw [hspec]
+  refine ⟨⟨?_, by simp, ?_⟩, by simp⟩
+  · simp [List.append_assoc]
+  · intro r hr
+    rcases List.mem_append.mp hr with h | h
+    · exact hok r h
+    · simp at h; subst h; exact writeLenient_ok fs vals
+
+/-- a freshly created writer is synchronised with the empty row list -/
+theorem create_inv (fs : List Field) : DbfInv fs (create fs) [] := by
+  simp [DbfInv, create]
 
 end GeomV.C16.Layout
